@@ -98,6 +98,7 @@ class StepBudget:
                 continue
         if self.tool is not None:
             self.mon.register_callback(self.tool, self.mon.events.PY_START, self._cb)
+            self.mon.register_callback(self.tool, self.mon.events.PY_RESUME, self._cb)   # (generators: every item is a resume)
 
     @property
     def ok(self):
@@ -115,7 +116,7 @@ class StepBudget:
             return call(fn, *a, **kw)
         self.count = 0
         self.active = True
-        self.mon.set_events(self.tool, self.mon.events.PY_START)
+        self.mon.set_events(self.tool, self.mon.events.PY_START | self.mon.events.PY_RESUME)
         try:
             return Outcome(True, fn(*a, **kw))
         except Exception as e:
